@@ -134,3 +134,13 @@ impl Out {
         }
     }
 }
+
+/// byte/unit counts near the `usize` overflow thresholds of the max_* formulas (C07 overflow clause);
+/// `i` selects one deterministically
+pub fn big_n(i: usize) -> usize {
+    let divs = [1usize, 2, 3, 4];
+    let d = divs[i % 4];
+    let delta = (i / 4) % 9; // -5 ..= +3
+    let base = usize::MAX / d;
+    if delta >= 5 { base.saturating_add(delta - 5) } else { base - (5 - delta) }
+}
